@@ -14,12 +14,14 @@ if [ "$DEMO" != "-" ]; then
   (cd /tmp && PYTHONPATH="$WT" /venv/bin/python "$DEMO" >/dev/null 2>&1); echo "demo on pristine HEAD: exit $?"
 fi
 git -C "$WT" apply "$PATCH" 2>/dev/null || git -C "$WT" apply --3way "$PATCH" || { echo "PATCH DOES NOT APPLY"; exit 2; }
+git -C "$WT" diff > "${PATCH%.diff}.eff.diff"   # the change as it applies to the current HEAD
 if [ "${SKIP_TESTS:-0}" != "1" ]; then
   (cd "$WT" && PYTHONPATH="$WT" /venv/bin/python -m pytest -q -p no:cacheprovider --timeout=900 tests 2>&1 | tail -1)
 fi
 if [ "$DEMO" != "-" ]; then
   (cd /tmp && PYTHONPATH="$WT" /venv/bin/python "$DEMO" >/dev/null 2>&1); echo "demo with patch: exit $?"
 fi
+[ "${SKIP_CHECK:-0}" = "1" ] && exit 0
 cd /verif && VERIF_REPO="$WT" VERIF_QUIET=1 ./vcheck "$PROP" --tier "$TIER" > "$WT.log" 2>&1; rc=$?
 grep -E "VIOLATION|KNOWN-FINDING|MACHINERY|violations=" "$WT.log" | head -6; rm -f "$WT.log"
 echo "check exit: $rc"
